@@ -360,3 +360,23 @@ B("C16", "CMD_RE tail admits NUL", SH, '\\bc\\^?m\\^?d\\b)[^\\x00]*\'', '\\bc\\^
 N("C16", "loop bound rewritten", SH, "    while i < len(cmd) - 1:\n", "    while i + 1 < len(cmd):\n")
 N("C16", "character temp removed", SH, '        character = cmd[i]\n        if character == ord(\'"\'):', '        character = cmd[i + 0]\n        if character == ord(\'"\'):')
 N("C16", "find result clamped with if/else", SH, "                if end < 0:\n                    # The string or FOR loop is never closed, assume it runs to the end of the data\n                    end = len(data)\n", "                end = len(data) if end < 0 else end\n")
+
+# ------------------------------------------------------------------ C12
+B("C12", "parse_url(group) re-introduced", NET, "children=parse_url(url)))", "children=parse_url(group)))", "R1-same-text")
+B("C12", "scheme separator not counted", NET, "        offset += len(url.scheme) + 1  # scheme + :\n", "        offset += len(url.scheme)  # scheme\n", "R2-layout")
+B("C12", "authority separator counted as 3", NET, "        offset += 2  # authority begins with //\n", "        offset += 3  # authority begins with //\n", "R2-layout")
+B("C12", "query span from len(url.path)", NET, "                end=(offset := offset + len(url.query)),\n", "                end=(offset := offset + len(url.path)),\n", "R2-layout")
+B("C12", "fragment offset counted from the query again", NET, "        offset = len(url_text) - len(url.fragment)\n", "        offset += 1  # fragment starts with #\n", "R2-layout")
+B("C12", "host offset from accumulated parts", NET, "    offset = len(authority) - len(address)\n", "    if userinfo:\n        offset += 1  # for the @\n", "R2-layout")
+B("C12", "host offset from the first @", NET, "    offset = len(authority) - len(address)\n", "    offset = authority.find(b\"@\") + 1\n", "R2-layout")
+B("C12", "password offset without the colon", NET, "        offset += 1  # for the :\n", "", "R2-layout")
+B("C12", "MixedCase guard drops the upper-case case", NET, "if url_text[0 : len(url.scheme)] not in (url.scheme, url.scheme.upper())", "if url_text[0 : len(url.scheme)] not in (url.scheme,)", "R4-labels")
+B("C12", "dotpath label guard <=", NET, '"url.dotpath" if len(dotless) < len(segments) else ""', '"url.dotpath" if len(dotless) <= len(segments) else ""', "R4-labels")
+B("C12", "root popped again", NET, 'if dotless and dotless != [b""]:', "if dotless:", "R4-labels")
+B("C12", "filename child from the raw length", PATHF, "children.append(Node(type_, filename, \"\", len(path) - len(filename), len(path)))", "children.append(Node(type_, filename, \"\", length - len(filename), length))", "R5-windows")
+B("C12", "device prefix without the backslash", PATHF, 'if path.startswith((b"\\\\\\\\.\\\\", b"\\\\\\\\?\\\\")):', 'if path.startswith((b"\\\\\\\\.", b"\\\\\\\\?")):', "R5-windows")
+B("C12", "UNC host offset 3", PATHF, "children.append(parse_ip(hostname).shift(2))", "children.append(parse_ip(hostname).shift(3))", "R5-windows")
+B("C12", "query value from the fragment", NET, "                unquote_to_bytes(url.query),\n", "                unquote_to_bytes(url.fragment),\n", "R3-provenance")
+B("C12", "domain child sized by decoded host", NET, 'out.append(Node("network.domain", host, "", offset, offset + host_length))', 'out.append(Node("network.domain", host, "", offset, offset + len(host)))', "R2-layout")
+N("C12", "offsets via explicit variables", NET, "        offset += len(url.scheme) + 1  # scheme + :\n", "        scheme_len = len(url.scheme)\n        offset += scheme_len + 1  # scheme + :\n")
+N("C12", "start/end keywords vs positionals", NET, "                start=offset,\n                end=(offset := offset + len(url.query)),\n", "                \"\",\n                offset,\n                (offset := offset + len(url.query)),\n")
